@@ -118,4 +118,28 @@ PROPS = {
                 "Non-trivial: an operand accepts eps or has >= 2 start states, and not both languages are empty. Distinct: hash of the case text.",
         "assumptions": COMMON_ASSUMPTIONS,
     },
+    "C07": {
+        "harness": "c07",
+        "quick": {"workers": 8, "cases": 700, "size": 22},
+        "thorough": {"workers": 16, "cases": 8000, "size": 30},
+        "min_nontrivial_frac": 0.25,
+        "min_tag_frac": {"verdict:included": 0.15, "verdict:not-included": 0.15, "two-children-with-several-macrostates": 0.03},
+        "rule": GEN_TA + "pairs as for C01 with the split/ablate/leafmiss strategies weighted up; both BDD encodings are loaded through the Timbuk loader; implemented selections (BU: upward NOSIM via CLI protocol, "
+                "direct and default; downward-recursive SIM with a legitimately computed and with a dummy relation; TD: downward recursive with/without implication cache, NOSIM via CLI protocol and direct, "
+                "SIM with the relation computed on the BU union as the library itself does) are compared with the exact reference verdict; on a 20 % sample all other of the 128 InclParam words must throw. "
+                "Non-trivial: as C01; the class 'two-children-with-several-macrostates' (a non-unary rule of A whose children each have >= 2 reference macro-states) is tracked with a floor. Distinct: hash of the case text.",
+        "assumptions": COMMON_ASSUMPTIONS + ["BU ANTICHAINS_UP_SIM is neither claimed nor reachable with a legitimately computed relation and is skipped"],
+    },
+    "C08": {
+        "harness": "c08",
+        "quick": {"workers": 8, "cases": 2500, "size": 30, "min_records": 12},
+        "thorough": {"workers": 16, "cases": 30000, "size": 44, "min_records": 12},
+        "min_nontrivial_frac": 0.3,
+        "rule": "histories of 4-24 steps over pools of <= 6 handles per BDD encoding built from three generated automata (<= 3-4 states): load into a fresh handle (dump must denote the generated language), "
+                "copy-construct, copy-assign, Union (with/without maps), UnionDisjointStates (only when the two dumps taken before the call have disjoint state sets), Intersection, RemoveUnreachableStates, "
+                "RemoveUselessStates (no useless state may remain in the dump), GetTopDownAut, drop; after a copy/union/trim the next binary step is biased towards the handles sharing a table. Every expectation is formed from the "
+                "operand dumps taken immediately before the call; operands are re-dumped after the call. Non-trivial: some binary operation had an operand that shares its transition table with another live handle. "
+                "Distinct: hash of the case text (automata + planned steps).",
+        "assumptions": COMMON_ASSUMPTIONS + ["automata are only loaded into fresh handles (AddTransition on a shared table is an explicitly unimplemented branch)"],
+    },
 }
